@@ -12,7 +12,9 @@ import warnings
 
 from harness.core import Ctx, VERIF
 
-RULE = ("program trees (items = node | modification | property line below a node or on its own | group | block of "
+RULE = ("program trees (items = node | modification | property line below a node or on its own | import line "
+        "`{?group.*}` / `{?group.node}` of a group defined in the same clause or of nothing at all | $unit directive, "
+        "a share of which cannot be carried out | group | block of "
         "1-4 clauses with optional @else and optional @end, written plainly or in compact form `parent.@case`), "
         "nesting depth <= 5 (thorough 6), children 1-3 columns deeper than their keyword, blocks closed by @end, by "
         "the next sibling (node, group, property line, block of another parent), by de-indentation of any number of "
@@ -22,7 +24,11 @@ RULE = ("program trees (items = node | modification | property line below a node
         "top-level bool nodes in every clause position, conditions that cannot be evaluated inside unselected "
         "clauses) on a share of the programs; malformed "
         "stream = rendered programs with inserted / deleted / re-indented / re-parented lines incl. stray "
-        "@else/@end/@case with equal and different parents; a few hand-written texts with expression conditions. "
+        "@else/@end/@case with equal and different parents; histories = a base code and 2-4 further codes each "
+        "parsed on the environment of the base or of an earlier step (earlier codes ending inside open blocks / "
+        "groups or failing, later codes starting with valid or misplaced clause keywords), oracle = every code "
+        "behaves as its own tree on top of the environment's nodes and the base environment stays untouched; "
+        "a few hand-written texts with expression conditions. "
         "non-trivial = program with a block closed by indentation or nested blocks or an unselected clause "
         "containing lines or neighbouring compact blocks; distinct = canonical JSON of tree + assignment")
 ASSUMPTIONS = [
@@ -36,12 +42,17 @@ ASSUMPTIONS = [
     "that cannot be resolved there dangles under every truth assignment (erroneous program) and is outside the domain",
     "mutated raw-line texts are outside the grammar of the property: only the misplaced-clause verdict is judged "
     "on them; a real-parser/model difference there is counted (lines.impl_ne_model_outside_grammar) and noted only",
-    "imports, units, sources, tables and `parse_docs` are outside the model",
+    "import lines are local imports `{?a.b.*}` / `{?a.b.n}` of int nodes (what an import copies is applied identically "
+    "to the model's and the specification's effect list: C17 territory); `$unit` lines are observed only through "
+    "failing or not; the hierarchy entry an import leaves behind is a placeholder in the model (observable only by "
+    "lines deeper than the import line, which the generators do not write)",
+    "remote imports, $source, tables and `parse_docs` are outside the model",
 ]
 EXPLANATION = ("theorems: for every program tree, truth assignment, indentation oracle and written parents the state "
                "machine (hierarchy + branching + order of tests in DIP.parse) returns exactly the lines of the "
                "selected clauses; every @else/@end (and @case after @else) that is misplaced according to a "
-               "declarative definition on raw line sequences makes the machine fail")
+               "declarative definition on raw line sequences makes the machine fail; both hold from any "
+               "environment whose cases are closed, hence for every history of parses")
 
 NAMES = ["a", "b", "c", "d", "e"]
 GROUPS = ["g", "h", "k"]
@@ -57,7 +68,15 @@ def gen_prop(rng):
     return "const" if rng.random() < 0.3 else "tags:t%d" % rng.randint(1, 3)
 
 
-def gen_items(rng, depth, n=None, sure=None, frozen=None):
+UNIT_COUNTER = [0]
+
+
+def fresh_unit():
+    UNIT_COUNTER[0] += 1
+    return "zu%d" % UNIT_COUNTER[0]
+
+
+def gen_items(rng, depth, n=None, sure=None, frozen=None, path=()):
     """`sure`: names certainly defined (under the current path) whenever this sequence is effective; most
     modifications refer to those, so that few programs end in 'modifying undefined node'.
     `frozen`: names that may have been made constant (avoided afterwards for the same reason)."""
@@ -68,18 +87,38 @@ def gen_items(rng, depth, n=None, sure=None, frozen=None):
     out = []
     last_def = None
     for _ in range(n):
-        it = gen_item(rng, depth, sure, frozen, last_def, out)
+        it = gen_item(rng, depth, sure, frozen, last_def, out, path)
         if it[0] == "n" and not it[2]:
             last_def = it[1]
-        elif it[0] in ("g", "b"):
+        elif it[0] in ("g", "b", "i"):
             last_def = None        # nodes[-1] is no longer known
         out.append(it)
     return out
 
 
-def gen_item(rng, depth, sure, frozen, last_def, prev_items):
+def plain_nodes(items):
+    return [it[1] for it in items if it[0] == "n" and not it[2]]
+
+
+def gen_item(rng, depth, sure, frozen, last_def, prev_items, path=()):
     r = rng.random()
     prev_block = bool(prev_items) and prev_items[-1][0] == "b"
+    q0 = rng.random()
+    if q0 < 0.06:
+        # an import line: of a group defined earlier in this very sequence (i.e. in the same clause), of one of
+        # its nodes, or (rarely) of something that does not exist — inert inside an unselected clause
+        groups = [it for it in prev_items if it[0] == "g" and plain_nodes(it[3])]
+        if groups and rng.random() < 0.85:
+            g = rng.choice(groups)
+            nd = rng.choice(plain_nodes(g[3])) if rng.random() < 0.4 else None
+            frozen.update(NAMES)
+            sure.clear()
+            return ["i", list(path) + [g[1]], nd]
+        if rng.random() < 0.3:
+            return ["i", list(path) + ["zz"], None]
+    elif q0 < 0.10:
+        # a $unit directive; a share cannot be carried out (unknown base unit)
+        return ["u", fresh_unit(), rng.random() < 0.2]
     if r < (0.18 if prev_block else 0.06) and (last_def is not None or (prev_block and sure)):
         # a property line on its own: after a node, or directly after a block
         p = gen_prop(rng)
@@ -106,7 +145,8 @@ def gen_item(rng, depth, sure, frozen, last_def, prev_items):
             sure.add(name)
         return ["n", name, False, rng.randint(0, 9), props]
     if r < 0.52:
-        return ["g", rng.choice(GROUPS), gen_extra(rng), gen_items(rng, depth - 1)]
+        gname = rng.choice(GROUPS)
+        return ["g", gname, gen_extra(rng), gen_items(rng, depth - 1, path=tuple(path) + (gname,))]
     # a block; after a compact block another compact block is likely (equal or different parent)
     if prev_block and prev_items[-1][1] and rng.random() < 0.7:
         pfx = list(prev_items[-1][1]) if rng.random() < 0.4 else rng.choice(PARENTS)
@@ -115,15 +155,17 @@ def gen_item(rng, depth, sure, frozen, last_def, prev_items):
     ncl = rng.choice([1, 1, 2, 2, 3, 4])
     inner_sure = sure if not pfx else set()
     inner_frozen = frozen if not pfx else set()
-    cl = [[rng.random() < 0.45, gen_extra(rng), gen_items(rng, depth - 1, sure=inner_sure, frozen=set(inner_frozen))]
+    ipath = tuple(path) + tuple(pfx)
+    cl = [[rng.random() < 0.45, gen_extra(rng),
+           gen_items(rng, depth - 1, sure=inner_sure, frozen=set(inner_frozen), path=ipath)]
           for _ in range(ncl)]
-    els = [gen_extra(rng), gen_items(rng, depth - 1, sure=inner_sure, frozen=set(inner_frozen))] \
+    els = [gen_extra(rng), gen_items(rng, depth - 1, sure=inner_sure, frozen=set(inner_frozen), path=ipath)] \
         if rng.random() < 0.5 else None
     if not pfx:
         # a clause may have frozen or redefined things: be careful afterwards
         for body in [c[2] for c in cl] + ([els[1]] if els else []):
             for it in body:
-                if it[0] == "p" or (it[0] == "n" and any(p[1] == "const" for p in it[4])):
+                if it[0] in ("p", "i") or (it[0] == "n" and any(p[1] == "const" for p in it[4])):
                     frozen.update(NAMES)
                     sure.clear()
     return ["b", pfx, cl, els, rng.random() < 0.35]
@@ -464,8 +506,10 @@ def mutate_lines(rng, lines):
             lines[min(pos, len(lines) - 1)][0] = ind
         elif r < 0.92:
             lines.insert(pos, [ind, rng.choice(["n", "g", "m"]), [rng.choice(NAMES)], rng.randint(0, 9)])
-        else:
+        elif r < 0.97:
             lines.insert(pos, [ind, "p:" + gen_prop(rng), [], 0])
+        else:
+            lines.insert(pos, rng.choice([[ind, "u1", [fresh_unit()], 0], [ind, "i*", ["zz"], 0]]))
     return lines
 
 
@@ -551,6 +595,150 @@ def lines_stream(ctx, count, corpus_lines):
         judge_lines(ctx, lines, r, tag)
 
 
+# ------------------------------------------------------------------ histories: several parses on one environment
+def impl_history(base_text, steps):
+    """steps: [(from_index, text)]; returns (base result, [step results]) with 'skip' for steps whose
+    environment does not exist, plus what happened to the base environment."""
+    from scinumtools.dip import DIP
+
+    def records(env):
+        return [[n.name, canon_value(n.value.value if n.value is not None else None), bool(n.constant),
+                 list(n.tags) if n.tags else []] for n in env.nodes]
+    with warnings.catch_warnings():
+        warnings.simplefilter("ignore")
+        envs = []
+        try:
+            with DIP(name="hbase") as p:
+                p.add_string(base_text)
+                envs.append(p.parse())
+            base_res = records(envs[0])
+        except Exception:
+            return "err", ["skip"] * len(steps), None
+        results = []
+        for i, (frm, text) in enumerate(steps):
+            env = envs[frm] if frm < len(envs) else None
+            if env is None:
+                results.append("skip")
+                envs.append(None)
+                continue
+            try:
+                with DIP(env, name="hstep%d" % i) as p:
+                    p.add_string(text)
+                    e2 = p.parse()
+                results.append(records(e2))
+                envs.append(e2)
+            except Exception:
+                results.append("err")
+                envs.append(None)
+        after = {"records": records(envs[0]), "open": len(envs[0].branching.state),
+                 "num_cases": int(envs[0].branching.num_cases)}
+        return base_res, results, after
+
+
+def gen_history(rng):
+    base = gen_items(rng, rng.choice([0, 1, 1, 2]), n=rng.choice([1, 2, 3]))
+    if rng.random() < 0.5:     # the base itself ends inside an open block
+        base.append(["b", [], [[rng.random() < 0.5, gen_extra(rng), gen_items(rng, 0, n=1)]], None, False])
+    sure = set(plain_nodes(base)) if not any(it[0] in ("p", "i") or (it[0] == "n" and it[4]) for it in base) else set()
+    steps = []
+    for i in range(rng.choice([2, 3, 3, 4])):
+        frm = rng.choice([0, 0] + list(range(0, i + 1)))
+        if rng.random() < 0.2:
+            # a raw code that starts with a clause keyword that is misplaced there (or a valid small one)
+            kind = rng.choice(["else", "end", "else", "c1"])
+            par = rng.choice([[], [], ["g"]])
+            lines = [[0, kind, par, 0], [2, "n", [rng.choice(NAMES)], rng.randint(0, 9)]]
+            if kind == "end":
+                lines = lines[:1] + [[0, "n", [rng.choice(NAMES)], 1]]
+            steps.append({"from": frm, "lines": lines})
+            continue
+        items = []
+        if rng.random() < 0.6:   # starts with a clause keyword
+            items.append(["b", rng.choice([[], [], ["g"]]),
+                          [[rng.random() < 0.6, gen_extra(rng), gen_items(rng, 1, n=rng.choice([1, 2]), sure=sure)]],
+                          [gen_extra(rng), gen_items(rng, 0, n=1, sure=sure)] if rng.random() < 0.6 else None,
+                          rng.random() < 0.3])
+        items += gen_items(rng, rng.choice([0, 1, 2]), n=rng.choice([0, 1, 2]), sure=sure)
+        if rng.random() < 0.6:   # ends inside an open block or group
+            if rng.random() < 0.7:
+                items.append(["b", rng.choice([[], [], ["g"]]),
+                              [[rng.random() < 0.6, gen_extra(rng), gen_items(rng, 1, n=rng.choice([1, 2]), sure=sure)]],
+                              None, False])
+            else:
+                items.append(["g", rng.choice(GROUPS), gen_extra(rng), gen_items(rng, 1, n=1)])
+        if not items:
+            items = gen_items(rng, 0, n=1, sure=sure)
+        steps.append({"from": frm, "items": items})
+    return base, steps
+
+
+def hist_stream(ctx, count, corpus_hist):
+    rng = ctx.rng
+    hists = list(corpus_hist)
+    for _ in range(count):
+        base, steps = gen_history(rng)
+        hists.append({"base": base, "steps": steps})
+    res = ctx.driver.ask_many([{"p": "C15", "k": "hist", "base": h["base"], "steps": h["steps"]} for h in hists])
+    for h, r in zip(hists, res):
+        if "ok" not in r:
+            ctx.disagreement("hist", h, "driver error %s" % (r,))
+            continue
+        r = r["ok"]
+        base_text = to_text(r["base"]["lines"])
+        texts = [to_text(st["lines"]) for st in r["steps"]]
+        base_imp, imps, after = impl_history(base_text, [(s["from"], t) for s, t in zip(h["steps"], texts)])
+        ctx.case(["hist", h], True, {"base": base_text.split("\n")[:6], "steps": [[s["from"], t.split("\n")[:6]] for s, t in zip(h["steps"], texts)][:3]}
+                 if ctx.evaluations % 40 == 0 else None)
+        ctx.count("hist.histories")
+        replay = {"stream": "hist", "base": h["base"], "steps": h["steps"], "base_text": base_text, "texts": texts}
+        if base_imp != r["base"]["spec"]:
+            ctx.violation("hist:base", "base code\n    %s\n  real parser gives %s, the selected clauses give %s" %
+                          (base_text.replace("\n", "\n    "), base_imp, r["base"]["spec"]), dict(replay, impl=base_imp))
+            continue
+        if base_imp == "err":
+            ctx.count("hist.base_err")
+            continue
+        for i, (st, sr, imp, text) in enumerate(zip(h["steps"], r["steps"], imps, texts)):
+            ctx.count("hist.steps")
+            ctx.count("hist.step_from_base" if st["from"] == 0 else "hist.step_chained")
+            if imp == "skip" or sr["spec"] == "skip":
+                if imp != sr["spec"] and not (imp == "skip" and sr["model"] == "skip"):
+                    pass   # an environment exists on one side only: already reported at the step that produced it
+                ctx.count("hist.steps_skipped")
+                continue
+            hist_txt = "base code\n    %s\n  %s, then on the environment of %s the code\n    %s" % (
+                base_text.replace("\n", "\n    "),
+                "; ".join("step %d from %s" % (k + 1, "base" if s2["from"] == 0 else "step %d" % s2["from"])
+                          for k, s2 in enumerate(h["steps"][:i])) or "no other parse before",
+                "the base" if st["from"] == 0 else "step %d" % st["from"], text.replace("\n", "\n    "))
+            if "items" in st:
+                if imp != sr["spec"]:
+                    ctx.violation("hist:" + classify(imp, sr["spec"])[4:],
+                                  "%s\n  real parser gives %s, the code's own selected clauses on top of that "
+                                  "environment give %s (earlier steps: %s)" %
+                                  (hist_txt, imp, sr["spec"], [[s2["from"], t] for s2, t in zip(h["steps"][:i], texts[:i])]),
+                                  dict(replay, step=i, impl=imp, spec=sr["spec"]))
+                    break
+                if imp != sr["model"]:
+                    ctx.disagreement("hist", dict(replay, step=i), "impl %s model %s" % (imp, sr["model"]))
+                    break
+            else:
+                ctx.count("hist.raw_steps_misplaced" if sr["misplaced"] else "hist.raw_steps_not_misplaced")
+                if sr["misplaced"] and imp != "err":
+                    ctx.violation("hist:misplaced-accepted",
+                                  "%s\n  starts with / contains a misplaced clause line but is accepted and gives %s "
+                                  "(earlier steps: %s)" % (hist_txt, imp, [[s2["from"], t] for s2, t in zip(h["steps"][:i], texts[:i])]),
+                                  dict(replay, step=i, impl=imp, spec="err"))
+                    break
+        if after is not None and (after["records"] != base_imp or after["open"] != 0 or
+                                  after["num_cases"] != r["base"]["num_cases"]):
+            ctx.violation("hist:base-environment-modified",
+                          "base code\n    %s\n  after further parses on it the base environment has records %s, %d open "
+                          "blocks, %d numbered clauses (expected %s, 0, %s)" %
+                          (base_text.replace("\n", "\n    "), after["records"], after["open"], after["num_cases"],
+                           base_imp, r["base"]["num_cases"]), dict(replay, after=after))
+
+
 # ------------------------------------------------------------------ hand-written texts (outside the line language)
 def texts_stream(ctx, texts):
     for t in texts:
@@ -566,8 +754,12 @@ def texts_stream(ctx, texts):
 
 
 # ------------------------------------------------------------------ entry points
+HIST_CORPUS = []
+
+
 def load_corpus():
     items, lines, texts = [], [], []
+    HIST_CORPUS.clear()
     d = VERIF / "corpus" / "C15"
     for f in sorted(d.glob("*.json")):
         j = json.loads(f.read_text())
@@ -578,6 +770,8 @@ def load_corpus():
                 lines.append(e["lines"])
             elif "text" in e:
                 texts.append(e)
+            elif "base" in e:
+                HIST_CORPUS.append({"base": e["base"], "steps": e["steps"]})
     return items, lines, texts
 
 
@@ -587,6 +781,7 @@ def correspond(ctx: Ctx):
     texts_stream(ctx, c_texts)
     ast_stream(ctx, 3000 if thorough else 400, 6 if thorough else 5, 1500 if thorough else 160, c_items)
     lines_stream(ctx, 15000 if thorough else 2000, c_lines)
+    hist_stream(ctx, 4000 if thorough else 500, HIST_CORPUS)
     ctx.extra.pop("_shrunk", None)
 
 
@@ -597,6 +792,7 @@ def search(ctx: Ctx):
             break
         ast_stream(ctx, 400, 5, 200, [])
         lines_stream(ctx, 2000, [])
+        hist_stream(ctx, 500, [])
     ctx.extra.pop("_shrunk", None)
 
 
@@ -611,7 +807,22 @@ def replay(ctx: Ctx, payload):
         print(json.dumps(payload, indent=1)[:4000])
         return 1
     rp = payload.get("replay", payload)
-    if rp.get("stream") == "text":
+    if rp.get("stream") == "hist":
+        r = ctx.driver.ask({"p": "C15", "k": "hist", "base": rp["base"], "steps": rp["steps"]})["ok"]
+        base_text = to_text(r["base"]["lines"])
+        texts = [to_text(st["lines"]) for st in r["steps"]]
+        base_imp, imps, after = impl_history(base_text, [(s["from"], t) for s, t in zip(rp["steps"], texts)])
+        print("base:\n" + base_text, "\n ->", base_imp)
+        bad = base_imp != r["base"]["spec"]
+        for st, sr, imp, t in zip(rp["steps"], r["steps"], imps, texts):
+            want = sr["spec"] if "items" in st else ("err" if sr["misplaced"] else "(no verdict)")
+            print("from %d:\n%s\n -> real parser %s, required %s" % (st["from"], t, imp, want))
+            if imp != "skip" and want not in ("skip", "(no verdict)") and imp != want:
+                bad = True
+        if after is not None and (after["records"] != base_imp or after["open"] != 0):
+            print("base environment afterwards:", after)
+            bad = True
+    elif rp.get("stream") == "text":
         imp, _ = impl_run(rp["text"])
         print(rp["text"])
         print("real parser:", imp, " required:", rp["spec"])
